@@ -52,6 +52,28 @@ def replay_fsync_order(inputs, obl):
                 problems.append(f"set({key!r}) returned but its file does not exist")
             elif builtins.open(target, 'rb').read() != want:
                 problems.append(f"set({key!r}): file contents differ from the serialised value")
+        # a set of a value whose bytes are ALREADY in the file (left there by a writer that was killed before its fsync, then retried
+        # by a new process) must still make them durable: it is the set that returns which promises durability
+        pre = os.path.join(d, 'retry')
+        with builtins.open(pre, 'wb') as fh:
+            fh.write(serialize_obj('same-value'))
+        events.clear()
+        KeyValueStorage(d).set('retry', 'same-value')
+        if not [e for e in events if e[0] == 'fsync' and e[2] == os.path.realpath(pre)]:
+            problems.append("set('retry', v) on a key whose file already holds the bytes of v (unsynced leftovers of a killed writer) returned without an fsync")
+        # a write that fails must make the set fail (the value is not durable): inject EIO at fsync
+        class FailingOs(OsProxy):
+            def fsync(self, fd):
+                raise OSError(5, 'Input/output error (injected)')
+        fcm.os = FailingOs()
+        try:
+            try:
+                KeyValueStorage(d).set('willfail', 'v')
+                problems.append("set('willfail', v) returned although os.fsync failed with EIO: the value is not durable")
+            except OSError:
+                pass
+        finally:
+            fcm.os = OsProxy()
         kv2 = KeyValueStorage(d)
         for key, val in vals.items():
             try:
